@@ -82,9 +82,12 @@ def _run_base(ctx):
         for n in walk_no_nested(fn):
             if isinstance(n, ast.If) and not (isinstance(repo.parent(n), ast.If) and n in repo.parent(n).orelse and len(repo.parent(n).orelse) == 1):
                 arms, _ = if_chain(n)
-                if any(compare_eq_const(t) and compare_eq_const(t)[0] == var or
-                       (isinstance(t, ast.Call) and isinstance(t.func, ast.Attribute) and t.func.attr == 'startswith' and dotted(t.func.value) == var)
-                       for t, b, nd in arms):
+                def _on_var(t):
+                    while isinstance(t, ast.UnaryOp) and isinstance(t.op, ast.Not):
+                        t = t.operand
+                    return bool(compare_eq_const(t) and compare_eq_const(t)[0] == var or
+                                (isinstance(t, ast.Call) and isinstance(t.func, ast.Attribute) and t.func.attr == 'startswith' and dotted(t.func.value) == var))
+                if any(_on_var(t) for t, b, nd in arms):
                     chains.append(n)
         if not chains:
             raise AnalysisError('%s: no dispatch on %s found' % (fid, var))
@@ -92,10 +95,14 @@ def _run_base(ctx):
             got = []
             for ch in chains:
                 ev = Evaluator({var: s, 'is_transient': False})
+                _arms = if_chain(ch)[0]
                 for idx, body in reachable_arms(ev, ch):
                     if idx == 'else':
+                        # the fall-through of a guard-clause chain is decided by the strategy value too when every test before it is definitely false
+                        if body and any(_on_var(t) and ev.truth(ev.ev(t)) is False for t, b_, nd_ in _arms):
+                            got.extend(selected_entities(repo, cg, fn, body, ev))
                         continue
-                    test = if_chain(ch)[0][idx][0]
+                    test = _arms[idx][0]
                     if ev.truth(ev.ev(test)) is not True:
                         continue        # arms not decided by the strategy value
                     got.extend(selected_entities(repo, cg, fn, body, ev))
